@@ -9,6 +9,7 @@ import (
 	"os"
 	"sort"
 	"strings"
+	"time"
 
 	"mhubsim/hub"
 )
@@ -177,12 +178,23 @@ func Replay(prop string, cfg Config, intents []Intent, logOn bool) *RunResult {
 	return res
 }
 
+// MinimiseDeadline (set by a check worker) ends all shrinking in this process, so that a worker that meets many
+// distinct failures still reports them inside the check's wall-clock bound.
+var MinimiseDeadline time.Time
+
 // Minimise is delta debugging over the intent list: a candidate is kept only if it still yields a
 // violation with the same signature.
 func Minimise(prop string, cfg Config, intents []Intent, sig string, budget int) []Intent {
 	cur := append([]Intent(nil), intents...)
 	tries := 0
+	// the wall clock only bounds the EFFORT spent on shrinking (every kept candidate was re-executed and failed the
+	// same way); it takes no part in any simulated decision
+	start := time.Now()
 	same := func(c []Intent) bool {
+		if time.Since(start) > 100*time.Second || (!MinimiseDeadline.IsZero() && time.Now().After(MinimiseDeadline)) {
+			tries = budget
+			return false
+		}
 		tries++
 		r := Replay(prop, cfg, c, false)
 		for _, v := range r.Viols {
@@ -222,25 +234,56 @@ func Minimise(prop string, cfg Config, intents []Intent, sig string, budget int)
 			}
 		}
 	}
-	// simplify arguments: drop transport faults, shrink block counts
-	for i := range cur {
+	// simplify arguments: drop transport faults, shrink block counts and gaps, absent validators, fees, amounts
+	try := func(i int, f func(in *Intent) bool) {
 		if tries >= budget {
-			break
+			return
 		}
-		if cur[i].Net != "" {
-			c := append([]Intent(nil), cur...)
-			c[i].Net = ""
-			if same(c) {
-				cur = c
+		c := append([]Intent(nil), cur...)
+		if !f(&c[i]) {
+			return
+		}
+		if same(c) {
+			cur = c
+		}
+	}
+	for i := range cur {
+		try(i, func(in *Intent) bool {
+			if in.Net == "" {
+				return false
 			}
-		}
-		if cur[i].T == "block" && cur[i].N > 1 {
-			c := append([]Intent(nil), cur...)
-			c[i].N = 1
-			if same(c) {
-				cur = c
+			in.Net = ""
+			return true
+		})
+		try(i, func(in *Intent) bool {
+			if in.T != "block" || in.N <= 1 {
+				return false
 			}
-		}
+			in.N = 1
+			return true
+		})
+		try(i, func(in *Intent) bool {
+			if in.T != "block" || (in.Dt == 5 && len(in.Miss) == 0) {
+				return false
+			}
+			in.Dt, in.Miss = 5, nil
+			return true
+		})
+		try(i, func(in *Intent) bool {
+			if (in.T != "user_send" && in.T != "ext_deposit") || in.Fee == "" || in.Fee == "0" {
+				return false
+			}
+			in.Fee = "0"
+			return true
+		})
+		try(i, func(in *Intent) bool {
+			// a round amount of the same magnitude: first digit kept, the rest zeros
+			if (in.T != "user_send" && in.T != "ext_deposit") || len(in.Amt) < 3 || strings.Trim(in.Amt[1:], "0") == "" || in.Amt[0] == '-' {
+				return false
+			}
+			in.Amt = in.Amt[:1] + strings.Repeat("0", len(in.Amt)-1)
+			return true
+		})
 	}
 	return cur
 }
